@@ -8,6 +8,7 @@ import warnings
 
 from . import pyxfront
 from .normalize import canonicalise
+from .inline import inline_new_helpers
 from .report import Undecided
 
 
@@ -110,6 +111,7 @@ class Model:
         self.functions = {}
         self.classes = {}
         self.parse_errors = []
+        self.inlined = {}
         self._load()
 
     # ------------------------------------------------------------------ loading
@@ -141,7 +143,15 @@ class Model:
                     with warnings.catch_warnings():
                         warnings.simplefilter('ignore')
                         if kind == 'py':
-                            tree = canonicalise(ast.parse(src, filename=rel))
+                            raw = ast.parse(src, filename=rel)
+                            try:
+                                done = inline_new_helpers(raw, name)
+                            except Exception as e:     # the expansion is an optimisation of precision; never let it break the analysis
+                                raw, done = ast.parse(src, filename=rel), []
+                                self.parse_errors.append(f'{rel}: helper expansion skipped ({type(e).__name__}: {e})')
+                            if done:
+                                self.inlined[name] = done
+                            tree = canonicalise(raw)
                         else:
                             py, side = pyxfront.rewrite(src, rel)
                             tree = canonicalise(_flatten_cdef(ast.parse(py, filename=rel)))
